@@ -16,8 +16,12 @@ history = {
  'C01c':'frozen-other','C02c':'after','C03c':'frozen','C04c':'frozen-other','C05c':'frozen-other','C06c':'after','C07c':'after','C08c':'after',
  'C09c':'after','C10c':'frozen-other','C11c':'after','C13c':'frozen-other','C14c':'after','C15c':'frozen-other','C16c':'after','C17c':'frozen-other',
  'C18c':'after','C19c':'frozen','C20c':'frozen',
+ # round d: rules frozen at tag rules-frozen-before-round-d; first run in refs/round_d_first_run.txt
+ 'C01d':'after','C02d':'frozen-other','C03d':'after','C04d':'frozen','C05d':'frozen-other','C06d':'frozen','C07d':'frozen-other','C08d':'frozen',
+ 'C09d':'after','C10d':'frozen','C11d':'frozen-other','C13d':'after','C14d':'after','C15d':'frozen-other','C16d':'frozen-other','C17d':'frozen-other',
+ 'C18d':'frozen','C19d':'frozen-other','C20d':'frozen',
 }
-seeds = sys.argv[1:] or sorted(os.listdir('seeded'))
+seeds = sys.argv[1:] or sorted(d for d in os.listdir('seeded') if os.path.isdir('seeded/'+d))
 out = subprocess.run(['tools/run_seeds.sh'] + seeds, capture_output=True, text=True).stdout
 for line in out.splitlines():
     m = re.match(r'(\S+) own-property-check=(\w+) :: (.*)', line)
